@@ -1,4 +1,6 @@
 """C08 — DBSCAN / OPTICS: structural clauses of the density-clustering definition."""
+from . import layout
+from . import c07
 from .core import RuleResult
 from .facts import fn_key, fn_loc, fn_file, walk, strip, peel_refs, pat_bindings, Render, children
 from .sym import Tracer, Term, Cmp, Poly, k, as_term, as_poly, walk_terms, CMP_NEG, guard_relations
@@ -341,5 +343,129 @@ def rule_once(ctx):
     return res.finish(2)
 
 
+rule_memorder = layout.make_rule("R-C08-memorder", "raw memory-order buffers (as_slice_memory_order, into_raw_vec, as_ptr) of observations are used by position only behind an is_standard_layout() test", lambda f: f["d"]["krate"] == "linfa_clustering" and ("dbscan" in fn_file(f) or "optics" in fn_file(f)), "linfa-clustering dbscan/optics")
+
+def _total_sort(call):
+    """a sort of the elements by a total order on the elements themselves: sort() / sort_unstable(), or a comparator
+    that is `a.cmp(b)` / `b.cmp(a)` on its two parameters, or sort_by_key with the identity key"""
+    nm = call["name"]
+    if nm in ("sort", "sort_unstable") and not call["args"]:
+        return True
+    if nm in ("sort_by", "sort_unstable_by") and call["args"]:
+        clo = strip(call["args"][0])
+        if clo.get("k") == "Closure" and len(clo["params"]) == 2:
+            ps = [set(b["local"] for b in pat_bindings(p_)) for p_ in clo["params"]]
+            body = strip(clo["body"])
+            while body.get("k") == "Block" and not body["stmts"] and body.get("e"):
+                body = strip(body["e"])
+            if body.get("k") == "MethodCall" and body["name"] == "cmp" and len(body["args"]) == 1:
+                a, b = peel_refs(body["recv"]), peel_refs(body["args"][0])
+                if a.get("k") == "Path" and b.get("k") == "Path":
+                    la, lb = a.get("local"), b.get("local")
+                    return (la in ps[0] and lb in ps[1]) or (la in ps[1] and lb in ps[0])
+    if nm in ("sort_by_key", "sort_unstable_by_key", "sort_by_cached_key") and call["args"]:
+        clo = strip(call["args"][0])
+        if clo.get("k") == "Closure" and len(clo["params"]) == 1:
+            ps = set(b["local"] for b in pat_bindings(clo["params"][0]))
+            body = peel_refs(clo["body"])
+            return body.get("k") == "Path" and body.get("local") in ps
+    return False
+
+
+def rule_tie(ctx):
+    """OPTICS picks the next sample as the first seed of minimal reachability.  The seed list is filled in the order
+    in which the range query returned the neighbours (sorting the neighbours by distance leaves equidistant ones in
+    that order), so with ties the pick - and the whole ordering - depends on the neighbour index unless the list is
+    brought into a canonical order (a total sort on the sample indices) before the pick, or the comparison itself
+    breaks ties by index."""
+    from .taint import extremum_is_total
+    res = RuleResult("R-C08-tie", "the seed of minimal reachability is picked from a canonically ordered list (total sort on the indices before the pick, or an index tie-break in the comparison)")
+    F = ctx.facts()
+    fns = [f for f in cl_fns(F, "optics") if f["d"]["name"] == "transform" and "OpticsAnalysis" in f["output"]]
+    if not fns:
+        res.missing_anchor("<OpticsValidParams as Transformer>::transform")
+    # functions returning neighbours in range-query order up to a partial sort
+    helpers = {}
+    for g in cl_fns(F, "optics"):
+        if any(x.get("k") == "MethodCall" and x["name"] == "within_range" for x in walk(g["body"])):
+            total = any(x.get("k") == "MethodCall" and x["name"] in SORTS and _total_sort(x) for x in walk(g["body"]))
+            helpers[g["d"]["name"]] = total
+    for fn in fns:
+        c = fn["crate"]
+        key = fn_key(fn)
+        tainted = set()
+        names = {}
+        for n in walk(fn["body"]):
+            if n.get("k") == "LetStmt" and n.get("init") is not None:
+                calls = [x for x in walk(n["init"]) if x.get("k") == "MethodCall" and (x["name"] == "within_range" or (x["name"] in helpers and not helpers[x["name"]]))]
+                if calls:
+                    for b in pat_bindings(n["pat"]):
+                        tainted.add(b["local"])
+                        names[b["local"]] = b["name"]
+        # a Vec handed as &mut to a call that also receives a tainted value is filled in that order
+        filled = set()
+        for n in walk(fn["body"]):
+            if n.get("k") == "MethodCall" and any(peel_refs(a).get("local") in tainted for a in n["args"]):
+                for a in n["args"]:
+                    a0 = strip(a)
+                    if a0.get("k") == "Ref" and a0.get("mut"):
+                        t = peel_refs(a0)
+                        ty = c.ty(t.get("t")) or ""
+                        if t.get("k") == "Path" and "local" in t and ty.startswith("std::vec::Vec<") or ty.startswith("Vec<") or "vec::Vec<" in ty[:40]:
+                            if t.get("k") == "Path" and "local" in t:
+                                filled.add(t["local"])
+                                names[t["local"]] = t.get("name")
+        n_picks = 0
+        from .layout import with_parents
+        for x, anc in with_parents(fn["body"]):
+            if x.get("k") != "MethodCall" or x["name"] not in ("min_by", "max_by", "min_by_key", "max_by_key", "position", "find"):
+                continue
+            rt = x["recv"]
+            while True:
+                rt = peel_refs(rt)
+                if rt.get("k") == "MethodCall":
+                    rt = rt["recv"]
+                    continue
+                break
+            if rt.get("k") != "Path" or rt.get("local") not in filled:
+                continue
+            if any(a_.get("k") == "Closure" for a_ in anc):
+                continue
+            n_picks += 1
+            inst = "%s : %s over `%s`" % (key, x["name"], names.get(rt["local"]))
+            res.instance(inst)
+            # statements before the pick in its enclosing blocks, up to the nearest loop (the same iteration)
+            canon = False
+            chain = list(anc) + [x]
+            for j in range(len(anc) - 1, -1, -1):
+                blk = anc[j]
+                if blk.get("k") == "Loop":
+                    break
+                if blk.get("k") != "Block":
+                    continue
+                stmts = blk["stmts"] + ([blk["e"]] if blk.get("e") else [])
+                child = chain[j + 1]
+                for st in stmts:
+                    if st is child or strip(st) is child:
+                        break
+                    for y in walk(st):
+                        if y.get("k") == "MethodCall" and y["name"] in SORTS and peel_refs(y["recv"]).get("local") == rt["local"] and _total_sort(y):
+                            canon = True
+            total_cmp = False
+            try:
+                total_cmp = bool(extremum_is_total(x, c))
+            except Exception:
+                total_cmp = False
+            if canon or total_cmp:
+                res.ok()
+                res.sample({"pick": inst, "canonical_order": "total sort before the pick" if canon else "tie-break in the comparison"})
+            else:
+                res.violate("%s : pick-in-query-order:%s" % (key, names.get(rt["local"])), "`%s` is filled in the order in which the range query returned the neighbours, and `%s` picks the first element of minimal reachability without a total sort of the list before it and without an index tie-break: with equal reachabilities the OPTICS ordering depends on the neighbour index" % (names.get(rt["local"]), x["name"]), fn_loc(fn, x["ln"]))
+        if n_picks == 0:
+            res.instance("%s : pick of the next seed" % key)
+            res.undecided("%s : pick-not-found" % key, "no min_by / max_by pick over a list filled from a range query found in transform", fn_loc(fn))
+    return res.finish(1)
+
+
 def rules(tier):
-    return [rule_core, rule_self, rule_index, rule_order, rule_once]
+    return [rule_core, rule_self, rule_index, rule_order, rule_once, rule_memorder, rule_tie, c07.rule_edge]
